@@ -391,21 +391,30 @@ def annotate_fn(unit, src, it, fnq, a: A, em: Emitter, canary=None):
             if r is None:
                 raise LostAnchor(f'{fnq}: match arm `{pat}` #{occ} not found')
             ps, arrow, bs, be, is_block = r
-            objs = text if isinstance(text, list) else [text]
+            objs = []
+            for o in (text if isinstance(text, list) else [text]):
+                objs += _wrap_arm_obj(fnq, pat, o)
             if is_block:
+                if which == 'end' and toks[be - 2].text not in (';', '}', '{'):
+                    em.insert_after_tok(be - 2, ';')   # the arm ends in a unit-typed tail expression
                 for o in objs:
                     if which == 'begin':
-                        em.insert_after_tok(bs, _wrap_arm_obj(fnq, pat, o))
+                        em.insert_after_tok(bs, o)
                     else:
-                        em.insert_before_tok(be - 1, _wrap_arm_obj(fnq, pat, o))
+                        em.insert_before_tok(be - 1, o)
             else:
+                # expression arm: wrap it into a block (insertions only)
                 if which == 'begin':
                     em.insert_before_tok(bs, '{ ')
                     for o in objs:
-                        em.insert_before_tok(bs, _wrap_arm_obj(fnq, pat, o))
+                        em.insert_before_tok(bs, o)
                     em.insert_after_tok(be - 1, ' }')
                 else:
-                    raise LostAnchor(f'{fnq}: arm_end on expression arm `{pat}` unsupported')
+                    em.insert_before_tok(bs, '{ ')
+                    em.insert_after_tok(be - 1, '; ')
+                    for o in objs:
+                        em.insert_after_tok(be - 1, o)
+                    em.insert_after_tok(be - 1, ' }')
     # ---- generic anchors ----
     for which, table in (('after', a.after), ('before', a.before)):
         for key, text in table.items():
@@ -413,18 +422,21 @@ def annotate_fn(unit, src, it, fnq, a: A, em: Emitter, canary=None):
             r = rscan.find_seq(toks, body_lo, body_hi, seq, occ)
             if r is None:
                 raise LostAnchor(f'{fnq}: anchor `{seq}` #{occ} not found')
-            objs = text if isinstance(text, list) else [text]
+            objs = []
+            for o in (text if isinstance(text, list) else [text]):
+                objs += _wrap_arm_obj(fnq, seq, o)
             for o in objs:
                 if which == 'after':
-                    em.insert_after_tok(r[1] - 1, _wrap_arm_obj(fnq, seq, o))
+                    em.insert_after_tok(r[1] - 1, o)
                 else:
-                    em.insert_before_tok(r[0], _wrap_arm_obj(fnq, seq, o))
+                    em.insert_before_tok(r[0], o)
 
 
 def _wrap_arm_obj(fnq, pat, o):
-    if isinstance(o, tuple):  # (name, assertion text[, props]) -> named assert clause
-        return _AssertClause(fnq, o[0], o[1], o[2] if len(o) > 2 else None)
-    return o
+    """str -> raw text; (name, condition[, props]) -> `proof { assert(condition); }` as a named obligation"""
+    if isinstance(o, tuple):
+        return ['proof { ', _AssertClause(fnq, o[0], 'assert(' + o[1] + ')', o[2] if len(o) > 2 else None), '; } ']
+    return [o]
 
 
 class _AssertClause(Clause):
